@@ -265,7 +265,7 @@ impl StreamJoinNode {
                 // Compare timestamps and duration in seconds to match test conventions
                 let time_diff =
                     ((left.metadata.timestamp as i64) - (right.metadata.timestamp as i64)).abs();
-                time_diff <= duration.as_secs() as i64
+                time_diff <= i64::try_from(duration.as_secs()).unwrap_or(i64::MAX)
             }
             JoinStrategy::CountWindow { .. } => {
                 // For count windows, we handle this differently in buffer management
@@ -275,7 +275,7 @@ impl StreamJoinNode {
                 // Session gap is compared in seconds
                 let time_diff =
                     ((left.metadata.timestamp as i64) - (right.metadata.timestamp as i64)).abs();
-                time_diff <= gap.as_secs() as i64
+                time_diff <= i64::try_from(gap.as_secs()).unwrap_or(i64::MAX)
             }
         }
     }
@@ -370,8 +370,8 @@ impl StreamJoinNode {
     fn get_window_duration(&self) -> i64 {
         match &self.join_strategy {
             // Return window duration in seconds (consistent with event timestamps used in tests)
-            JoinStrategy::TimeWindow { duration } => duration.as_secs() as i64,
-            JoinStrategy::SessionWindow { gap } => gap.as_secs() as i64,
+            JoinStrategy::TimeWindow { duration } => i64::try_from(duration.as_secs()).unwrap_or(i64::MAX),
+            JoinStrategy::SessionWindow { gap } => i64::try_from(gap.as_secs()).unwrap_or(i64::MAX),
             JoinStrategy::CountWindow { .. } => i64::MAX, // Count windows don't time out
         }
     }
